@@ -6,7 +6,11 @@ from . import common as K
 FIXTURE_FILES = [("other", "example-linux"), ("other/ls-linux", "ls"), ("linux64-ci", "firefox"), ("macos-ci", "libmozglue.dylib"),
                  ("win64-ci", "softokn3.dll"), ("win64-ci", "WriteArgument.exe"), ("android32-local", "libsoftokn3.so"),
                  # split DWARF whose .dwo files the helper does not offer (location_for_dwo = None): the skeleton unit's line table is all there is
-                 ("other/simple-example/out/with-dwo", "main")]
+                 ("other/simple-example/out/with-dwo", "main"),
+                 # Mach-O with debug info in external object files (OSO): libfile23.a and main.o are offered, file1.o is not - a request with frames in
+                 # several object files meets an unavailable one first (the external files are asked for in path order)
+                 ("other/simple-example/out/mac-oso", "main")]
+PARTIAL_EXTERNALS = {"other/simple-example/out/mac-oso": ["libfile23.a", "main.o"]}
 
 SPECIAL_FILES = ["hg:hg.mozilla.org/mozilla-central:widget/cocoa/nsAppShell.mm:997f00815e6bc28806b75448c8829f0259d2cb28",
                  "git:github.com/rust-lang/rust:library/std/src/rt.rs:c8dfcfe046a7680554bf4eb612bad840e7631c4b",
@@ -14,7 +18,9 @@ SPECIAL_FILES = ["hg:hg.mozilla.org/mozilla-central:widget/cocoa/nsAppShell.mm:9
                  "cargo:github.com-1ecc6299db9ec823:tokio-1.6.1:src/runtime/task/mod.rs",
                  "/src/demo/alpha.c", "/src/demo/sub dir/beta.h", "relative/gamma.cpp", "C:\\win\\delta.c",
                  # names that begin or end in white space (a FILE name runs to the end of its line): they denote other files than their trimmed spellings
-                 "/src/demo/alpha.c ", "/src/demo/zeta.h\t", "\u00a0/src/demo/eta.c", "relative/gamma.cpp  "]
+                 "/src/demo/alpha.c ", "/src/demo/zeta.h\t", "\u00a0/src/demo/eta.c", "relative/gamma.cpp  ",
+                 # names with '.' and '..' components, as compilers record them (build/../gcc/libgcc/unwind.c): reported verbatim, accepted verbatim
+                 "/src/build/../lib/theta.c", "../rel/./iota.c", "C:\\win\\..\\kappa.c"]
 
 GEN_MODULES = [("genmod1.so", "AAAA0000BBBB1111CCCC2222DDDD33330"), ("genmod2", "0123456789ABCDEF0123456789ABCDEF1"),
                ("genmod3.so", "0F0E0D0C0B0A090807060504030201002"),
@@ -143,8 +149,13 @@ class Env:
                 continue
             src = os.path.join(K.REPO, "fixtures", d, f)
             dst = os.path.join(self.dir, h[1])
-            if not os.path.exists(dst):
+            if os.path.lexists(dst):
+                dst = os.path.join(self.dir, "%s-%s" % (h[1], h[2]))       # a second fixture of that name: <name>-<breakpad id> (harness helper)
+            if not os.path.lexists(dst):
                 os.symlink(src, dst)
+            for extra in PARTIAL_EXTERNALS.get(d, []):
+                if not os.path.lexists(os.path.join(self.dir, extra)):
+                    os.symlink(os.path.join(os.path.dirname(src), extra), os.path.join(self.dir, extra))
             # companion debug files used by the fixtures
             for extra in os.listdir(os.path.dirname(src)):
                 if extra.endswith((".debug", ".dbg", ".pdb")) and not os.path.exists(os.path.join(self.dir, extra)):
